@@ -31,6 +31,7 @@ let first_fail (l : string list) = match List.filter (fun x -> x <> "") l with [
 
 (* live path: RCPT + DATA on a real SMTP session, then lookups by the address through the
    manager, the REST API and POP3. *)
+let rest_all_ok = "200.200.200.200.200.200.L0.200"  (* show, source, ui show, ui source, mark seen, delete; nothing left; purge *)
 let live pip iptab ins outs =
   match ins with
   | [mf; a] ->
@@ -46,7 +47,7 @@ let live pip iptab ins outs =
             let by_addr = read_name pip m ViaMailboxForAddress a and by_name = read_name pip m ViaMailboxForAddress name in
             let rest_f = if impl 6 = "-" then "-" else
               (match by_addr with
-               | Some n when n = name -> "200:1:" ^ field_of_str name
+               | Some n when n = name -> "200:1:" ^ field_of_str name ^ ":" ^ rest_all_ok
                | Some _ -> "200:0:-"
                | None -> "500") in
             let pop_a = if impl 7 = "-" then "-" else cnt "P" (read_name pip m pop3_user_flow a) in
@@ -62,7 +63,7 @@ let live pip iptab ins outs =
              | Some n ->
                  if by_addr <> "M1" then "fail:live-not-fetchable-by-address:manager"
                  else if by_name <> "M1" then "fail:live-not-fetchable-by-name:manager"
-                 else if rest_o <> "-" && rest_o <> "200:1:" ^ Mlutil.hex n then "fail:live-not-fetchable-by-address:rest"
+                 else if rest_o <> "-" && rest_o <> "200:1:" ^ Mlutil.hex n ^ ":" ^ rest_all_ok then "fail:live-not-fetchable-by-address:rest"
                  else if pop_n <> "-" && pop_n <> "P1" then "fail:live-not-fetchable-by-name:pop3"
                  else if pop_a <> "-" && pop_a <> "P1" then "fail:pop3-user-not-canonical:live"
                  else "ok")
